@@ -282,12 +282,40 @@ def r4(tree, rep, tier):
                   what="the ping timer never expires on a connection in use in the two-party product: the Leader does not monitor its connection")
 
 
+def r6(tree, rep):
+    """the interval the application asked for is the interval the monitor runs on: Dilator.dilate hands its `ping_interval` parameter to
+    the Manager unchanged (`ping_interval or <default>` - only a missing / zero value gets the default), never reassigned on the way;
+    every bound of the property ("under three ping intervals", "within one interval") is stated in that unit"""
+    fn = tree.func(MGR, "Dilator", "dilate")
+    stores = [x for x in ast.walk(fn) if isinstance(x, ast.Name) and x.id == "ping_interval" and isinstance(x.ctx, ast.Store)]
+    mk = [c for c in ast.walk(fn) if isinstance(c, ast.Call) and dotted(c.func) == "Manager"]
+    ok = len(mk) == 1 and not stores
+    passed = None
+    if ok:
+        cands = [a for a in list(mk[0].args) + [k.value for k in mk[0].keywords]
+                 if any(isinstance(x, ast.Name) and x.id == "ping_interval" for x in ast.walk(a))]
+        ok = len(cands) == 1
+        if ok:
+            a = cands[0]
+            passed = ast.unparse(a)
+            plain = isinstance(a, ast.Name)
+            defaulted = isinstance(a, ast.BoolOp) and isinstance(a.op, ast.Or) and len(a.values) == 2 and isinstance(a.values[0], ast.Name) \
+                and a.values[0].id == "ping_interval" and not any(isinstance(x, ast.Call) for x in ast.walk(a.values[1]))
+            ok = plain or defaulted
+    rep.check("C16.R6", "Dilator.dilate passes the application's ping_interval to the Manager as given (%s), the parameter is not reassigned" % passed,
+              ok, site(fn, MGR), key="C16.R6:dilate:ping_interval-plumbing",
+              what="Dilator.dilate changes the ping interval the application asked for before the Manager sees it (reassigned: %s; passed as: %s): "
+                   "a legal explicit interval silently becomes another one, and a silent peer is dropped after a multiple of the promised "
+                   "three intervals" % (bool(stores), passed))
+
+
 def run(tree, rep, tier):
     prog = Program(tree)
     r1(prog, rep)
     r2(tree, rep)
     r3(tree, rep)
     r4(tree, rep, tier)
+    r6(tree, rep)
     from ..tablerules import application_outputs_last
     application_outputs_last(rep, "C16.R5", prog.machine("Manager"),
                              "the Leader has dropped the connection but never sends RECONNECT / never starts the next generation", min_rows=6)
@@ -329,3 +357,4 @@ MUTANTS.append(Mutant("status-before-reconnect", MGR, "                   output
                       "a status callback that raises on ReconnectingPeer leaves the Leader in FLUSHING without RECONNECT ever sent (seed C16-11)"))
 MUTANTS.append(Mutant("timer-bound-to-first-connection", MGR, "                self._traffic = TrafficTimer(self._signal_reconnect, self._send_ping_reset_timer)",
                       "                self._traffic = TrafficTimer(c.disconnect, self._send_ping_reset_timer)", "C16.R2", "seed C16-12"))
+MUTANTS.append(Mutant("sub-second-interval-defaulted", MGR, "        self._did_dilate()\n", "        self._did_dilate()\n        if ping_interval is not None and ping_interval < 1:\n            ping_interval = None\n", "C16.R6", "seed C16-16"))
